@@ -380,6 +380,7 @@ Record case := {
   c_claim  : option op;            (* the claim issued next *)
   c_claimed: list (key * seen);    (* what it returned *)
   c_r2     : reads;                (* after the claim *)
+  c_r3     : reads;                (* after a further close + reload *)
   c_last   : option (key * bool * ts * bool) (* last op was a successful patch of key: (key, clear, ts, applied) *)
 }.
 
@@ -461,9 +462,15 @@ Definition oracle_clear_slide (c : case) : N :=
 Definition first_nonzero (l : list N) : N :=
   match filter (fun x => negb (N.eqb x 0)) l with x :: _ => x | [] => 0%N end.
 
+(* "before and after a reload": what Get shows (existence and expiry of every key) is the same
+   after the final close + reload as before it *)
+Definition oracle_reload (c : case) : N :=
+  if list_eqb (fun a b => N.eqb (fst a) (fst b) && seen_eqb (snd a) (snd b)) (g_get (c_r2 c)) (g_get (c_r3 c))
+  then 0%N else 10%N.
+
 Definition oracle (c : case) : N :=
   first_nonzero [oracle_reads (c_now c) (c_r1 c); oracle_claim c; oracle_reads (c_now c) (c_r2 c);
-                 oracle_clear_slide c].
+                 oracle_clear_slide c; oracle_reload c; oracle_reads (c_now c) (c_r3 c)].
 
 (* --- replay: the faithful model predicts every observation ---------------------------------- *)
 Definition model_reads_ok (now : Z) (s : state) (r : reads) : bool :=
@@ -495,7 +502,7 @@ Definition replay (c : case) : bool :=
   let s1 := run (c_sat c) init (c_ops c) in
   model_reads_ok (c_now c) s1 (c_r1 c) &&
   match c_claim c with
-  | None => true
+  | None => model_reads_ok (c_now c) (step (c_sat c) s1 OReload) (c_r3 c)
   | Some o =>
       let s2 := step (c_sat c) (build_index s1) o in
       same_keys (map fst (c_claimed c)) (claim_result s1 o) &&
@@ -504,7 +511,8 @@ Definition replay (c : case) : bool :=
        | _ => forallb (fun p => seen_eqb (snd p) (model_seen s1 (fst p))) (c_claimed c)
        end) &&
       forallb (claim_seen_ok o s2) (c_claimed c) &&
-      model_reads_ok (c_now c) s2 (c_r2 c)
+      model_reads_ok (c_now c) s2 (c_r2 c) &&
+      model_reads_ok (c_now c) (step (c_sat c) s2 OReload) (c_r3 c)
   end.
 
 Definition chk (c : case) : N :=
@@ -521,4 +529,4 @@ Definition no_reads : reads :=
      g_lt := []; g_gt := []; g_empty := []; g_nempty := [] |}.
 Definition bad_case : case :=
   {| c_sat := true; c_now := 0; c_ops := []; c_r1 := no_reads; c_claim := None; c_claimed := [];
-     c_r2 := no_reads; c_last := None |}.
+     c_r2 := no_reads; c_r3 := no_reads; c_last := None |}.
